@@ -383,6 +383,59 @@ class _LooseSchema(Schema):
             tr = t["of"]
 
 
+def rename_identifiers(d, f):
+    """Apply f (lower-case identifier -> identifier) to every identifier occurrence of schema model d (in place).
+    f must be injective on the identifiers of d and keep non-identifiers unchanged."""
+    import re as _re
+
+    def g(n):
+        m = f(n.lower())
+        return n if m == n.lower() else m
+
+    def tr(t):
+        if t["k"] == "named":
+            t["name"] = g(t["name"])
+        elif t["k"] == "agg":
+            tr(t["of"])
+
+    def sx(x):
+        if isinstance(x, str):
+            return g(x)
+        x["args"] = [sx(a) for a in x["args"]]
+        return x
+
+    def expr(text):
+        return _re.sub(r"[A-Za-z][A-Za-z0-9_]*", lambda m: g(m.group(0)) if m.group(0).lower() == m.group(0) else m.group(0), text)
+    d["name"] = g(d["name"])
+    for t in d["types"]:
+        t["name"] = g(t["name"])
+        if "items" in t:
+            t["items"] = [g(i) for i in t["items"]]
+        if "members" in t:
+            t["members"] = [g(i) for i in t["members"]]
+        if "of" in t:
+            tr(t["of"])
+    for e in d["entities"]:
+        e["name"] = g(e["name"])
+        e["supers"] = [g(x) for x in e["supers"]]
+        if e.get("superexpr") is not None:
+            e["superexpr"] = sx(e["superexpr"])
+        for a in e["attrs"] + e["derived"]:
+            a["name"] = g(a["name"])
+            tr(a["type"])
+            if a.get("redecl"):
+                a["redecl"] = g(a["redecl"])
+        for a in e["inverse"]:
+            a["name"] = g(a["name"])
+            a["entity"] = g(a["entity"])
+            a["attr"] = g(a["attr"])
+        for u in e["unique"]:
+            u["attrs"] = [g(x) for x in u["attrs"]]
+        for w in e["where"]:
+            w["expr"] = expr(w["expr"])
+    return d
+
+
 def render_schema(d):
     text = exprender.schema(d)
     if not d.get("interfaces"):
